@@ -91,7 +91,8 @@ def flow(tier, seed, only=None):
         "id counters; primary set and three RDF indexes as bags; epochs/tx ids; allocated() after every step + region counters; recovered log) "
         "compared with the model on the same schedule; oracle = cross-checks and equality with some sequential order, evaluated in Coq. "
         "set_node_property (indexed key) and rotating-log programs likewise; hook-free stress phases (OS scheduler): create-only ids/visibility, begin/commit epochs, allocate/drop limit and accounting, "
-        "log completeness, disjoint-entity consistency, deadlock searches.  non-trivial = two threads touch a common entity; "
+        "log completeness, disjoint-entity consistency, first use of fresh labels by several threads at once (label registry / label index), "
+        "pairs of conflicting transactions committed at the same moment on a manager with 20k ballast records (exactly one commits), deadlock searches.  non-trivial = two threads touch a common entity; "
         "distinct = distinct (kind, programs, schedule)")
     sched = [c for c in cases if c["k"].endswith("-sched")]
     chk.coverage["schedules_run"] = len(sched)
